@@ -1,6 +1,6 @@
 # Mutants: realistic edits that keep the repository's own tests green but break a property.
 # files: {path: [(old, new), ...]} — every `old` must occur exactly once.
-MUTANTS = [
+BASE = [
  dict(id="C03-label64", prop="C03", what="label length limit off by one in IsDomainName and packDomainName (64-octet labels accepted)",
       files={"defaults.go": [("if labelLen >= 1<<6 { // top two bits of length must be clear\n\t\t\t\treturn labels, false", "if labelLen > 1<<6 { // top two bits of length must be clear\n\t\t\t\treturn labels, false")],
              "msg.go": [("if labelLen >= 1<<6 { // top two bits of length must be clear\n\t\t\t\treturn len(msg), ErrRdata", "if labelLen > 1<<6 { // top two bits of length must be clear\n\t\t\t\treturn len(msg), ErrRdata")]}),
@@ -17,3 +17,11 @@ MUTANTS = [
  dict(id="C19-trim-slice", prop="C19", what="TrimDomainName keeps the separating dot",
       files={"dnsutil/util.go": [("return s[:slabels[len(slabels)-m]-1]", "return s[:slabels[len(slabels)-m]]")]}),
 ]
+
+# per-property mutant files mutants_cNN.py each define MUTANTS = [...]
+import glob, os, importlib.util
+MUTANTS = list(BASE)
+for _f in sorted(glob.glob(os.path.join(os.path.dirname(os.path.abspath(__file__)), "mutants_*.py"))):
+    _sp = importlib.util.spec_from_file_location(os.path.basename(_f)[:-3], _f)
+    _m = importlib.util.module_from_spec(_sp); _sp.loader.exec_module(_m)
+    MUTANTS += _m.MUTANTS
